@@ -143,13 +143,28 @@ def run_stream(modname, stream, tier, seed, n_cases, shards=None):
     per = max(1, n_cases // shards)
     jobs = [(modname, stream, tier, seed, s, per) for s in range(shards)]
     total = Stats()
-    ctx = mp.get_context("fork")
-    with ctx.Pool(min(shards, N_WORKERS), maxtasksperchild=1) as pool:
-        for status, payload in pool.imap_unordered(_shard_entry, jobs):
-            if status != "ok":
-                raise HarnessFailure(payload)
-            total.merge(payload)
+    for status, payload in _pmap(_shard_entry, jobs, min(shards, N_WORKERS)):
+        if status != "ok":
+            raise HarnessFailure(payload)
+        total.merge(payload)
     return total
+
+
+def _pmap(fn, jobs, procs):
+    """Unordered parallel map over forked worker processes.  Unlike multiprocessing.Pool, a worker that dies (killed
+    by the kernel for using too much memory, a segfault in a native library) does not leave the parent waiting
+    forever: it is a harness failure (exit 2), never a verdict."""
+    import concurrent.futures as cf
+
+    if not jobs:
+        return
+    with cf.ProcessPoolExecutor(max_workers=max(1, procs), mp_context=mp.get_context("fork")) as ex:
+        futs = [ex.submit(fn, j) for j in jobs]
+        try:
+            for f in cf.as_completed(futs):
+                yield f.result()
+        except cf.process.BrokenProcessPool as e:
+            raise HarnessFailure(f"a worker process of the harness died (out of memory? crash in a native library?): {e}")
 
 
 def generate_cases(strategy, n, seed):
@@ -174,12 +189,10 @@ def run_tasks(fn, tasks, procs=None):
     """Plain parallel map for enumerated (non-Hypothesis) sweeps.  fn(task) -> Stats."""
     procs = procs or N_WORKERS
     total = Stats()
-    ctx = mp.get_context("fork")
-    with ctx.Pool(procs) as pool:
-        for status, payload in pool.imap_unordered(_task_entry, [(fn, t) for t in tasks]):
-            if status != "ok":
-                raise HarnessFailure(payload)
-            total.merge(payload)
+    for status, payload in _pmap(_task_entry, [(fn, t) for t in tasks], procs):
+        if status != "ok":
+            raise HarnessFailure(payload)
+        total.merge(payload)
     return total
 
 
